@@ -737,9 +737,33 @@ func MakeForeign(r *rng.R, opts ForeignOpts) *Foreign {
 		doc = Respell(r, doc)
 	}
 	f.put("word/document.xml", doc)
-	f.put("word/_rels/document.xml.rels", hdr+`<Relationships xmlns="`+relNS+`">`+strings.Join(w.docRels, "")+`</Relationships>`)
-	f.put("_rels/.rels", hdr+`<Relationships xmlns="`+relNS+`">`+strings.Join(pkgRels, "")+`</Relationships>`)
-	f.put("[Content_Types].xml", hdr+`<Types xmlns="http://schemas.openxmlformats.org/package/2006/content-types">`+strings.Join(ct, "")+`</Types>`)
+	// the package's own XML vocabularies (relationships, content types) under a namespace prefix instead of the default
+	// namespace: the same infoset, written by producers that serialise through a generic XML library
+	prefixed := func(xmlBody, root, ns, pfx string, children ...string) string {
+		out := strings.ReplaceAll(xmlBody, "<"+root+` xmlns="`+ns+`">`, "<"+pfx+":"+root+" xmlns:"+pfx+`="`+ns+`">`)
+		out = strings.ReplaceAll(out, "</"+root+">", "</"+pfx+":"+root+">")
+		for _, ch := range children {
+			out = strings.ReplaceAll(out, "<"+ch+" ", "<"+pfx+":"+ch+" ")
+		}
+		return out
+	}
+	docRelsXML := `<Relationships xmlns="` + relNS + `">` + strings.Join(w.docRels, "") + `</Relationships>`
+	pkgRelsXML := `<Relationships xmlns="` + relNS + `">` + strings.Join(pkgRels, "") + `</Relationships>`
+	ctXML := `<Types xmlns="http://schemas.openxmlformats.org/package/2006/content-types">` + strings.Join(ct, "") + `</Types>`
+	if !opts.Simple && r.Chance(1, 8) {
+		w.feature("prefixed-package-vocabulary")
+		switch r.Intn(3) {
+		case 0:
+			docRelsXML = prefixed(docRelsXML, "Relationships", relNS, "rel", "Relationship")
+		case 1:
+			pkgRelsXML = prefixed(pkgRelsXML, "Relationships", relNS, "pr", "Relationship")
+		default:
+			ctXML = prefixed(ctXML, "Types", "http://schemas.openxmlformats.org/package/2006/content-types", "ct", "Default", "Override")
+		}
+	}
+	f.put("word/_rels/document.xml.rels", hdr+docRelsXML)
+	f.put("_rels/.rels", hdr+pkgRelsXML)
+	f.put("[Content_Types].xml", hdr+ctXML)
 	// a realistic order: content types first
 	order := []string{"[Content_Types].xml", "_rels/.rels"}
 	for _, n := range f.Order {
